@@ -39,7 +39,8 @@ func genCosoptProxy(r *rng, _ int, w *bufio.Writer) {
 		_, _ = io.WriteString(rw, page)
 	}))
 	defer origin.Close()
-	originURL, err := url.Parse(origin.URL)
+	// address the origin by NAME ("localhost"): an IP literal is not a valid domain of a cosmetic rule
+	originURL, err := url.Parse(strings.Replace(origin.URL, "127.0.0.1", "localhost", 1))
 	if err != nil {
 		fmt.Fprintln(os.Stderr, "cosoptproxy: skipped:", err)
 
@@ -54,7 +55,7 @@ func genCosoptProxy(r *rng, _ int, w *bufio.Writer) {
 	}
 	var cases []pageCase
 	var filter strings.Builder
-	filter.WriteString("##.banner\n" + originURL.Hostname() + "##.specific\n")
+	filter.WriteString("##.vfgeneric456\n" + originURL.Hostname() + "##.vfspecific123\n")
 	for mask := 1; mask < 1<<len(mods); mask++ {
 		var names []string
 		for i, m := range mods {
@@ -99,13 +100,14 @@ func genCosoptProxy(r *rng, _ int, w *bufio.Writer) {
 		Timeout:   10 * time.Second,
 	}
 	reOption := regexp.MustCompile(`content-script\.js\?[^"]*option=(\d+)`)
+	reSrc := regexp.MustCompile(`<script src="(//[^"]*content-script\.js\?[^"]*)"`)
 	for _, c := range cases {
 		f, perr := rules.NewNetworkRule(c.text, 1)
 		if perr != nil {
 			continue
 		}
 		for _, accept := range []string{"text/html,application/xhtml+xml", "*/*"} {
-			req, rerr := http.NewRequest(http.MethodGet, origin.URL+c.path, nil)
+			req, rerr := http.NewRequest(http.MethodGet, originURL.String()+c.path, nil)
 			if rerr != nil {
 				continue
 			}
@@ -125,6 +127,27 @@ func genCosoptProxy(r *rng, _ int, w *bufio.Writer) {
 			}
 			fmt.Fprintf(w, "cosopt %s (%s) = %d:%s ## through the real proxy (Accept: %s): %s\n", wnetrule(f), strings.Join(c.names, " "),
 				uint32(got), cosFlags(got), accept, c.text)
+			// the content script the tag points to, fetched through the same proxy instance: its element-hiding CSS
+			// must be what the option says (pages of ONE hostname get different options here)
+			if m := reSrc.FindSubmatch(body); m != nil {
+				sreq, serr := http.NewRequest(http.MethodGet, "http:"+strings.ReplaceAll(string(m[1]), "&amp;", "&"), nil)
+				if serr == nil {
+					if sresp, derr2 := client.Do(sreq); derr2 == nil {
+						script, _ := io.ReadAll(sresp.Body)
+						_ = sresp.Body.Close()
+						hasSpecific := strings.Contains(string(script), ".vfspecific123")
+						hasGeneric := strings.Contains(string(script), ".vfgeneric456")
+						wantSpecific := got&rules.CosmeticOptionCSS != 0
+						wantGeneric := wantSpecific && got&rules.CosmeticOptionGenericCSS != 0
+						if os.Getenv("VERIF_DEBUG_SCRIPT") != "" && hasSpecific != wantSpecific {
+							fmt.Fprintf(os.Stderr, "URL %s\nSCRIPT %q\n", sreq.URL, script)
+						}
+						ok := hasSpecific == wantSpecific && hasGeneric == wantGeneric
+						fmt.Fprintf(w, "assert c16.script %d = %s ## content script for option %d of %s: specific CSS %v (want %v), generic CSS %v (want %v)\n",
+							uint32(got), wbool(ok), uint32(got), c.text, hasSpecific, wantSpecific, hasGeneric, wantGeneric)
+					}
+				}
+			}
 		}
 	}
 }
